@@ -199,6 +199,12 @@ def run(ck, prog):
             continue
         nd += 1
         leave = regs | cfg.blocks_calling(b, lambda c: c.endswith("::from_residual"))
+        # `let Some(x) = self.name() else { return None }` is the same early exit on missing syntax as `self.name()?`
+        for ot in brackets.option_tests(b, prog):
+            src = ot.get("src_callee") or ""
+            if src.startswith("syntax::ast::") or src in ("ide::index::utils::identifier", "ide::index::index_name_value") or is_index_call(src):
+                if ot.get("none_target") is not None:
+                    leave = leave | {ot["none_target"]}
         pth = cfg.path_exists(b, 0, lambda x: b.term(x)["k"] == "return", avoid=leave, include_src=True)
         if pth is not None:
             pth = cfg.feasible_path_exists(b, 0, lambda x: b.term(x)["k"] == "return", avoid=leave, include_src=True)
